@@ -100,7 +100,7 @@ def r10_3(ctx):
         for a, args in pc["actions"]:
             if a == "assign self.incomplete" and str(args[0]).startswith("Some("):
                 stores += 1
-                ok2 = any(v and ("matches None" in g and "try_to_complete_codepoint" in g or "Err(Incomplete{" in g) for g, v in pc["guards"].items())
+                ok2 = any((v and ("matches None" in g and "try_to_complete_codepoint" in g or "Err(Incomplete{" in g)) or (not v and "matches Some(" in g and "try_to_complete_codepoint" in g) for g, v in pc["guards"].items())
                 if not ok2:
                     bad = [g for g, v in pc["guards"].items() if v][:3]
     ctx.floor("R10.3", "incomplete-stores", stores, 2)
